@@ -5,6 +5,7 @@ import (
 
 	"github.com/miekg/dns"
 	"github.com/semihalev/sdns/internal/dnsutil"
+	"github.com/semihalev/sdns/middleware"
 )
 
 // Network and authority errors. DNSSEC-specific sentinels live in
@@ -38,6 +39,7 @@ var (
 	errResolutionCapacity = &dnsutil.EDEError{
 		Code:    dns.ExtendedErrorCodeNoReachableAuthority,
 		Message: "Resolver at in-flight resolution capacity",
+		Err:     middleware.ErrResolutionShed,
 	}
 	// errZoneCapacity is destination-scoped shedding: THIS zone's in-flight
 	// quota is exhausted (its authorities are almost certainly not
@@ -45,6 +47,7 @@ var (
 	errZoneCapacity = &dnsutil.EDEError{
 		Code:    dns.ExtendedErrorCodeNoReachableAuthority,
 		Message: "Zone at in-flight lookup capacity",
+		Err:     middleware.ErrResolutionShed,
 	}
 )
 
